@@ -158,7 +158,7 @@ G2, G3, G3D = (2, 1, 2), (3, 1, 2), (2, 1, 1, 2)
 
 def C07(tier, seed):
     if tier == "quick":
-        specs = [("paint", 2, G2, {}), ("UserDeleteNode", 2, G2, {}), ("UserAddNode", 2, G2, {})]
+        specs = [("paint", 2, G2, {}), ("paint", 2, G3D, {}), ("UserDeleteNode", 2, G2, {}), ("UserAddNode", 2, G2, {})]
     else:
         specs = [("paint", 3, G2, {}), ("paint", 2, G3, {}), ("paint", 2, G3D, {}), ("UserDeleteNode", 3, G3, {}),
                  ("UserAddNode", 3, G2, {}), ("UserAddNode", 2, G3D, {})]
@@ -329,6 +329,11 @@ def C10(tier, seed):
                         features.replay, ("protected", "free"),
                         "every activation table, attribute update (primitive and user action) of every managed key, "
                         "time, a custom and an unregistered key"))
+    for seg in (True, False):
+        runs.append(Run(f"prebuilt_registry:{'seg' if seg else 'noseg'}", features.prebuilt_harness, dict(seg=seg),
+                        features.prebuilt_replay, ("constructed",),
+                        "SolutionTracks constructed with a pre-built FeatureDict listing every subset of the "
+                        "features an annotator can manage"))
     g2, g3 = (2, 1, 2), (3, 1, 2)
     specs = [("paint", 2, g2, {"disable": ["area"]}), ("paint", 2, g2, {"all_rp": True, "disable": ["circularity", "pos"]}),
              ("UserAddEdge", 3, g3, {"iou": True, "disable": ["iou"]}),
@@ -375,10 +380,10 @@ def replay_file(prop, path):
         fn = labels.bytrack_replay
     elif run in ("relabel_segmentation", "handle_segmentation"):
         fn = relabel.replay
-    elif run.startswith(("switch:", "protect:")):
+    elif run.startswith(("switch:", "protect:", "prebuilt_registry:")):
         from harness import features
 
-        fn = features.replay
+        fn = features.prebuilt_replay if run.startswith("prebuilt") else features.replay
     elif prop == "C17":
         from harness import names
 
